@@ -319,7 +319,7 @@ def gen_inputs(tier, seed):
     for n in list(range(0, 64)) * (4 if thorough else 1) + [rng.randint(64, 2048) for _ in range(400 if thorough else 60)] + [65536, 65535, 40000][: 3 if thorough else 1]:
         add("random", bytes(rng.getrandbits(8) for _ in range(n)))
     known = sorted(all_commands)
-    for _ in range(40000 if thorough else 400):
+    for _ in range(200000 if thorough else 400):
         n = rng.choice([0, 4, 8, 12, 16, 20, 24, 40, rng.randint(0, 300)])
         body = bytearray(rng.getrandbits(8) for _ in range(n))
         if n >= 8 and rng.random() < 0.7:          # plausible first AVP header
@@ -327,7 +327,7 @@ def gen_inputs(tier, seed):
             body[5:8] = rng.choice(BOUNDARY(n)).to_bytes(3, "big")
         add("random_body", header(rng.choice(known + [8388001]), rng.choice([0x80, 0, 0xC0]), body=bytes(body)), ("typed", "plain"))
     # valid messages
-    msgs = valid_messages(rng, 1500 if thorough else 110, entries, by_kind)
+    msgs = valid_messages(rng, 5000 if thorough else 110, entries, by_kind)
     for m in msgs:
         add("valid", m, ("typed", "plain"))
     small = sorted(msgs, key=len)
